@@ -276,3 +276,21 @@ def slice_between(path, start_marker: str, end_marker: str) -> str:
     a = src.rfind("\n", 0, a) + 1
     b = src.find("\n", b)
     return src[a:b] + "\n"
+
+
+def slice_between_text(src: str, start_marker: str, end_marker: str, include_end: bool = True, what: str = "") -> str:
+    """Like slice_between, on a text that was itself sliced (e.g. one fn item): whole lines from the line containing
+    start_marker to the line containing end_marker (or up to, excluding, that line)."""
+    if src.count(start_marker) != 1 or src.count(end_marker) != 1:
+        raise Inconclusive(f"slice_between_text({what}): markers occur {src.count(start_marker)}/{src.count(end_marker)} times (expected 1/1)")
+    a = src.index(start_marker)
+    b = src.index(end_marker)
+    if b < a:
+        raise Inconclusive(f"slice_between_text({what}): end marker before start marker")
+    a = src.rfind("\n", 0, a) + 1
+    if include_end:
+        b = src.find("\n", b)
+        b = len(src) if b < 0 else b
+    else:
+        b = src.rfind("\n", 0, b)
+    return src[a:b] + "\n"
